@@ -515,6 +515,9 @@ def sqlite_oracle(ctx, spec, cls):
     table = cls.sqlmeta.table
     key_spec = strip(spec)
     bad_enum = [ci for ci, c in enumerate(spec['cols']) if c['kind'][0] == 'e' and any(needs_e(v) for v in c['kind'][1])]
+    if any(c['kind'][0] == 'i' and c['kind'][2] and (c['kind'][3] or c['kind'][4]) for c in spec['cols']):
+        ctx.count('sqlite-execution-skipped:INT(n) UNSIGNED/ZEROFILL is MySQL-only syntax')
+        return
     try:
         cls.createTable()
     except Exception as e:
@@ -767,6 +770,7 @@ def scenario_evolution(ctx):
     T = type(name, (so.SQLObject,), {'_connection': conn, 'a': so.IntCol()})
     try:
         T.createTable()
+        T(a=1)
         try:
             T.sqlmeta.addColumn(so.IntCol('z', notNone=True), changeSchema=True)
             raised = None
@@ -967,9 +971,29 @@ def run_spec(ctx, spec, micro, mx, sample=False):
     sqlite_oracle(ctx, spec, cls)
 
 
+class Dedup:
+    """report each failure key a few times only (the framework keeps at most 200 failures)"""
+
+    def __init__(self, ctx):
+        self._ctx = ctx
+        self._seen = {}
+
+    def __getattr__(self, name):
+        return getattr(self._ctx, name)
+
+    def oracle_fail(self, key, what, case):
+        n = self._seen.get(key, 0)
+        self._seen[key] = n + 1
+        if n < 2:
+            self._ctx.oracle_fail(key, what, case)
+        else:
+            self._ctx.count('repeat-of:' + key)
+
+
 def run(ctx):
     env()
     rng = ctx.rng
+    ctx = Dedup(ctx)
     for i, spec in enumerate(corpus()):
         run_spec(ctx, spec, micro=bool(i % 2), mx=bool(i % 3 == 0), sample=i < 3)
     scenario_joins(ctx)
